@@ -1,4 +1,5 @@
 import CatiiProofs.AggProofs
+import CatiiProofs.MissingGenBridge
 /-!
 # C04 — the missing-cell rule and the three report formats agree
 
@@ -59,5 +60,36 @@ theorem cell_independent_of_format (s : Spec) (r1 r2 : Ret) (a v m den : Rat)
   obtain ⟨func, fact, weights, ign, ret, tol⟩ := s
   simp only at h
   cases func <;> first | exact absurd rfl h | rfl
+
+/-! ### the missing-cell decisions REGENERATED from the `reduce` methods on every run (`tools/translate_missing.py`)
+
+`MissingGen.<class>` is the current `output_is_missing` expression of `<class>.reduce` (for both values of `ignore_missing`);
+a rule that is assigned elsewhere, a validity that is not `~output_is_missing`, or a zero-adjustment of the weight sum that
+moved behind the rule does not translate. -/
+
+/-- weighted count, valid count and sum of BOTH cube types: the model's missing flag is the regenerated expression evaluated on
+the cell's valid / missing counters, and all six classes carry the same expression -/
+theorem generated_missing_rule_count_sum (s : Spec) (a v m den : Rat)
+    (hf : (s.func = .count ∧ s.weights ≠ .none) ∨ (s.func = .validCount ∧ s.ret.isPlainZero = false) ∨ s.func = .sum) :
+    (reduceCell s a v m den).missing = MissingGen.ffunc_sum s.ignoreMissing v m ∧
+    MissingGen.ffunc_count = MissingGen.ffunc_sum ∧ MissingGen.ffunc_valid_count = MissingGen.ffunc_sum ∧
+    MissingGen.xfunc_count = MissingGen.ffunc_sum ∧ MissingGen.xfunc_valid_count = MissingGen.ffunc_sum ∧
+    MissingGen.xfunc_sum = MissingGen.ffunc_sum :=
+  gen_rule_count_sum s a v m den hf
+
+/-- mean: the regenerated expression on the ZERO-ADJUSTED weight sum - and the source does adjust it before the rule
+(a differencing residue in an empty cell must count as zero, "when the valid weights sum to zero") -/
+theorem generated_missing_rule_mean (s : Spec) (a v m den : Rat) (hf : s.func = .mean) :
+    (reduceCell s a v m den).missing =
+      MissingGen.ffunc_mean s.ignoreMissing (if isClose0 s.zeroTol den then 0 else den) m ∧
+    ("ffunc_mean", true) ∈ MissingGen.classes ∧ MissingGen.xfunc_mean = MissingGen.ffunc_mean :=
+  ⟨(gen_rule_mean s a v m den hf).1, (gen_rule_mean s a v m den hf).2, gen_rule_xmean⟩
+
+/-- the regenerated expression says what the property says: missing iff no valid row, or (unless ignored) some missing row -/
+theorem generated_rule_reads (ig : Bool) (v m : Rat) :
+    MissingGen.ffunc_sum ig v m = true ↔ v = 0 ∨ (ig = false ∧ m ≠ 0) := by
+  unfold MissingGen.ffunc_sum
+  cases ig <;> simp [bne]
+
 
 end Catii.C04
